@@ -13,9 +13,9 @@ m = {
     "setup_cmd": "./check --setup",
     "hooks": {
         "guard": "verif",
-        "enable": "go test -tags verif -overlay=/verif/build/overlay.json -vet=off (overlay adds files from /verif/shims/<pkg>/zz_verif_export.go, each '//go:build verif', to packages of /repo without touching /repo)",
+        "enable": "go test -tags verif -overlay=/verif/build/overlay.json -vet=off (overlay adds files from /verif/shims/<pkg>/zz_verif_export.go, each '//go:build verif', to packages of /repo without touching /repo; one hook commit in /repo adds two no-op call sites and two tagged files in protocol/casper that count queued/finished replays of cached verification messages)",
         "baseline_off_cmd": BASELINE_OFF,
-        "source_commits": [],
+        "source_commits": ["a94f9aa13219ccaa3cd5b2c7443de9900b0e8acc"],
         "add_only": True,
     },
     "engines": [
